@@ -148,3 +148,14 @@ CLAIMS['C15'] = dict(
          'an impossible length is rejected before the buffer sized by decoded_size is filled. Routing: the escape / urlencode stream filters forward their whole range to util::escape / util::urlencode with no other output, base64 filter uses b64url::encode, '
          'every form-widget output of user-controlled text is wrapped in util::escape / filters::escape.',
     note='The per-byte clauses are exhaustive; the block codec is exhaustive for alphabet closure and sampled on bit-group representatives for value equality; the routing clause is structural. Not decided: HTML un-escape inverse (no decoder in the tree), js escape filter.')
+
+CLAIMS['C16'] = dict(
+    category='other',
+    engine='cppcms-facts + vlib/absint + vlib rules',
+    technique='static analysis: sibling agreement over all readout overriders, resolved-call sequence rules, constant tables extracted by constant evaluation and compared with independently computed standards, abstract interpretation of the SHA-1 padding for every fill level',
+    text='Digest values for all messages are numerical and are not claimed. Decided: every message_digest::readout (macro-generated OpenSSL classes included) finalises and then re-initialises with the initialiser of its own algorithm, constructor and append use the same family; '
+         'hmac::init hashes only keys longer than the block, XORs the whole block with 0x36 (inner digest) and 0x5c (outer digest), hmac::readout is inner readout, outer append(digest), outer readout to the caller, re-init; '
+         'digest_size / block_size / name of every digest class equal 16/64, 20/64, 28/64, 32/64, 48/128, 64/128 and create_by_name maps each name to that class; the 64 MD5 additive constants (constant-folded from the T_MASK expressions) equal floor(2^32|sin(i+1)|) in order, '
+         'rotate amounts, MD5/SHA-1 initial words, SHA-1 round constants and the MD5 padding vector equal the standards; SHA-1 padding is evaluated abstractly for all 64 fill levels (0x80, zeros, one or two blocks, big-endian bit length); '
+         'key::from_hex returns the nibble for exactly [0-9A-Fa-f], set_hex rejects odd lengths and accepts exactly hex digits.',
+    note='Trusted: OpenSSL SHA-2 and AES primitives, the standard tables computed in rules/C16.py. Not decided: digest values under arbitrary chunking (process_block arithmetic), CBC round trip.')
